@@ -74,7 +74,9 @@ class Tokenizer:
     @staticmethod
     def physical_lines(tok: TokenInfo) -> list[tuple[int, str]]:
         """(line number, text) of the lines a token lies on; a token's `line` holds all of them when it spans several."""
-        lines = tok.line.splitlines(keepends=True)
+        # only "\n" ends a line here (str.splitlines would also break at form feeds and other separators)
+        parts = tok.line.split("\n")
+        lines = [text + "\n" for text in parts[:-1]] + ([parts[-1]] if parts[-1] else [])
         if len(lines) != tok.end[0] - tok.start[0] + 1:
             lines = lines[:1]
         return list(enumerate(lines, tok.start[0]))
